@@ -518,7 +518,8 @@ def check_c06(exe, tier, seed, verdict):
         dumps = [e for e in out["ev"] if e["op"] == "dump"]
         # trace: Begin, Callback*, End
         events.append({"e": "begin", "main": t["main"], "drop": t["drop"], "shp": t["shp"], "nlay": len(t["main"]),
-                       "faults": [{"f": list(f), "x": "reject"} for f in sorted(rej)]})
+                       "faults": [{"f": list(f), "x": ["reject"]} for f in sorted(rej)], "attrs": [],
+                       "flags": {"owner": False, "group": False, "nosym": False}})
         for c in rd.get("cb", []):
             f = rp.get(norm(c["p"]), (0, 0))
             events.append({"e": "callback", "f": list(f), "verdict": c["v"], "data_ok": c["d"]})
@@ -530,11 +531,11 @@ def check_c06(exe, tier, seed, verdict):
                 d = dumps[h]
                 hist.append({"f": list(rp.get(norm(d["st"]["path"]), (0, 0))) if d["st"] else [0, 0],
                              "obs": {"groups": sections_of(d), "ents": listing_of_dump(d) or []}})
-            events.append({"e": "end", "rc": rd["rc"], "has_obj": bool(rd["arr"]), "kind": "hist", "hist": hist, "ents": []})
+            events.append({"e": "end", "rc": rd["rc"], "has_obj": bool(rd["arr"]), "kind": "hist", "hist": hist, "ents": [], "heap_ok": True, "cbused": True})
         else:
             got = listing_of_dump(dumps[0]) if dumps and dumps[0]["st"] else None
             events.append({"e": "end", "rc": rd["rc"], "has_obj": bool(rd.get("obj")) and not (rd["rc"] != "ECONF_SUCCESS" and rd.get("same")),
-                           "kind": "visible" if f4_class(x) else "cfg", "hist": [],
+                           "kind": "visible" if f4_class(x) else "cfg", "hist": [], "heap_ok": True, "cbused": True,
                            "ents": sorted_ents(got or [])})
         n_scen += 1
         if len(K) >= 3 and rej and K.index(sorted(rej, key=K.index)[0]) > 0:
@@ -787,3 +788,136 @@ def replay(pid, path):
         rec = json.load(f)
     print(json.dumps(rec, indent=1)[:5000])
     return 0
+
+
+# --------------------------------------------------------------------------------------
+# generic fault scenarios (C16, C20): tree + per-file attributes/faults + flags -> trace
+# --------------------------------------------------------------------------------------
+FOREIGN = 54321
+
+
+def scenario_script(i, x, ent, rej=(), attrs=None, flags=None, malformed=(), reset_reread=False, heap=False, use_cb=True):
+    """attrs: {(l,r): (own, grp, link)}; flags: dict(owner, group, nosym)."""
+    R = ROOT + "/s%d" % (i % 16)
+    t = {"main": x["main"], "drop": x["drop"], "shp": x["shp"]}
+    shape = Shape(ent, len(x["main"]))
+    contents = {f: "[broken\nK=1\n" for f in malformed}
+    s, paths = materialise(t, shape, R, contents=contents)
+    attrs = attrs or {}
+    extra = []
+    for p, f in paths.items():
+        own, grp, link = attrs.get(f, ("ok", "ok", False))
+        kind = t["main"][f[0] - 1] if f[1] == 0 else "regular"
+        if link and kind != "devnull":
+            # move the content aside and put a symbolic link in its place
+            tgt = "%s/targets/t%d_%d" % (R, f[0], f[1])
+            data = contents.get(f)
+            if data is None:
+                data = body(f[0], f[1], t["shp"][0] if f[1] == 0 else t["shp"][1]) if kind == "regular" else ""
+            extra += ["file %s %s" % (hx(tgt), hx(data)), "symlink %s %s" % (hx(tgt), hx(p))]
+            if own == "foreign" or grp == "foreign":
+                extra.append("chown %s %d %d" % (hx(tgt), FOREIGN if own == "foreign" else 0, FOREIGN if grp == "foreign" else 0))
+        if own == "foreign" or grp == "foreign":
+            extra.append("chown %s %d %d" % (hx(p), FOREIGN if own == "foreign" else 0, FOREIGN if grp == "foreign" else 0))
+    K = [tuple(f) for f in Kfull(x)]
+    pre = ["cbreset"]
+    mask = 0
+    for f in rej:
+        mask |= 1 << K.index(tuple(f))
+    flags = flags or {}
+    fl = []
+    if flags.get("owner"):
+        fl.append("requireowner 0")
+    if flags.get("group"):
+        fl.append("requiregroup 0")
+    if flags.get("nosym"):
+        fl.append("followsymlinks 0")
+
+    def one_read(h):
+        c = ["cbreset", "cbrejectk %d" % mask] + shape.call(h, R, cb=use_cb)
+        if ent.startswith("readhist"):
+            c += ["dump %d" % k for k in range(h, h + 8)] + ["free %d" % k for k in range(h, h + 8)]
+        else:
+            c += ["dump %d" % h, "free %d" % h]
+        return c
+    body_ = fl + one_read(1)
+    if reset_reread:
+        body_ += ["resetsec", "cbreset"] + shape.call(20, R, cb=use_cb) + (["dump %d" % k for k in range(20, 28)] + ["free %d" % k for k in range(20, 28)] if ent.startswith("readhist") else ["dump 20", "free 20"])
+    body_ += ["resetsec", "cbreset"]
+    if heap:
+        sc = s + extra + body_ + ["heap"] + body_ + ["heap"]
+    else:
+        sc = s + extra + body_
+    return sc, paths, K, shape
+
+
+def Kfull(x):
+    """consulted files in processing order (the exported log of the no-fault read)."""
+    return x["log"]
+
+
+def scenario_events(x, ent, out, paths, K, rej=(), attrs=None, flags=None, malformed=(), reset_reread=False, heap=False, use_cb=True):
+    root = out["root"]
+    rp = {norm(k.replace(ROOT, root)): v for k, v in paths.items()}
+    t = {"main": x["main"], "drop": x["drop"], "shp": x["shp"]}
+    ev = out["ev"]
+    heaps = [e["bytes"] for e in ev if e["op"] == "heap"]
+    heap_ok = True
+    if heap:
+        heap_ok = len(heaps) == 2 and heaps[0] == heaps[1]
+        # use the second (measured) run only
+        cut = max(i for i, e in enumerate(ev) if e["op"] == "heap" and e["bytes"] == heaps[0] and i < len(ev) - 1) if len(heaps) == 2 else 0
+        first_heap = [i for i, e in enumerate(ev) if e["op"] == "heap"][0]
+        ev = ev[first_heap + 1:]
+    reads = [(j, e) for j, e in enumerate(ev) if e["op"].startswith("read")]
+    events = []
+    faults = [{"f": list(f), "x": ["reject"]} for f in sorted(rej)] + [{"f": list(f), "x": ["malformed"]} for f in sorted(malformed)]
+    alist = [{"f": list(f), "own": a[0], "grp": a[1], "link": bool(a[2])} for f, a in sorted((attrs or {}).items())]
+    fl = {"owner": bool((flags or {}).get("owner")), "group": bool((flags or {}).get("group")), "nosym": bool((flags or {}).get("nosym"))}
+    for n, (j, rd) in enumerate(reads):
+        second = n == 1
+        events.append({"e": "begin", "main": t["main"], "drop": t["drop"], "shp": t["shp"], "nlay": len(t["main"]),
+                       "faults": faults, "attrs": alist,
+                       "flags": {"owner": False, "group": False, "nosym": False} if second else fl})
+        if use_cb:
+            for c in rd.get("cb", []):
+                f = rp.get(norm(c["p"]), (0, 0))
+                events.append({"e": "callback", "f": list(f), "verdict": c["v"], "data_ok": c["d"]})
+        nxt = []
+        for e in ev[j + 1:]:
+            if e["op"] == "dump":
+                nxt.append(e)
+            elif e["op"].startswith("read"):
+                break
+        if ent.startswith("readhist"):
+            hist = []
+            for d in nxt[:rd["n"]]:
+                st = d["st"]
+                hist.append({"f": list(rp.get(norm(st["path"]), (0, 0))) if st else [0, 0], "obs": {"groups": sections_of(d), "ents": listing_of_dump(d) or []}})
+            events.append({"e": "end", "rc": rd["rc"], "has_obj": bool(rd["arr"]), "kind": "hist", "hist": hist, "ents": [], "heap_ok": heap_ok, "cbused": use_cb})
+        else:
+            got = listing_of_dump(nxt[0]) if nxt and nxt[0]["st"] else None
+            events.append({"e": "end", "rc": rd["rc"], "has_obj": bool(rd.get("obj")) and not (rd["rc"] != "ECONF_SUCCESS" and rd.get("same")),
+                           "kind": "visible" if f4_class(x) else "cfg", "hist": [], "ents": sorted_ents(got or []), "heap_ok": heap_ok, "cbused": use_cb})
+    return events
+
+
+def validate_scenarios(events, verdict, pid, fpfun):
+    ok, tr, _ = core.validate_trace("Trace_Layers", os.path.join(core.SPEC, "Trace_Layers.cfg"), events, timeout=3000)
+    mism = [x for x in tr.json_lines() if "mismatch" in x]
+    if not ok and not mism:
+        raise core.ToolFailure("Trace_Layers did not consume the trace:\n" + tr.out[-2500:])
+    nb = 0
+    for x in mism[:60]:
+        i = x["mismatch"] - 1
+        j = i
+        while j > 0 and events[j]["e"] != "begin":
+            j -= 1
+        k = j + 1
+        while k < len(events) and events[k]["e"] != "begin":
+            k += 1
+        nb += 1
+        verdict.violation(fpfun(events[j], events[i]), {"kind": "scenario-trace", "events": events[j:k], "rejected_at": i - j, "spec": x.get("spec")},
+                          "trace rejected by Trace_Layers at event %d (%s):\n%s\nspecification expects: %s" % (
+                              i - j, events[i]["e"], "\n".join(json.dumps(e) for e in events[j:k])[:1800], canon(x.get("spec"))[:600]))
+    return len(mism)
